@@ -156,4 +156,11 @@ def run(work, repo):
         out["status"] = "inconclusive"
         out["diag"] = "NEW recursive cycle(s) without a guard contract, measure or classification (needs contract): " + "; ".join(by["new"])
         out["detail"] += "\nNEW (unmapped): " + "; ".join(by["new"])
-    return [out]
+    res = [out]
+    if by["c"]:
+        # the class (c) cycles ARE a genuine defect of C07 (unguarded recursion on token-tree depth); reported as a
+        # finding keyed by the member set, matched against /verif/known_findings.txt by the driver
+        members = sorted({f.replace("__CPROVER_file_local_", "") for c in rec for f in c if f in MAP and MAP[f][0] == "c"})
+        res.append({"name": "unguarded_tree_depth_recursion", "status": "finding", "key": ",".join(members),
+                    "detail": "functions recursing on token-tree depth with no depth guard:\n" + "\n".join("    " + x for x in by["c"])})
+    return res
